@@ -156,8 +156,8 @@ func ruleT1(c *Ctx) {
 		if !ok || call.Call.StaticCallee() == nil || call.Call.StaticCallee().Name() != "errorf" {
 			return
 		}
-		for _, pc := range pathConds(call.Block()) {
-			if b, ok := pc.If.Cond.(*ssa.BinOp); ok && b.Op == token.EQL && pc.Branch {
+		for _, pf := range pathFacts(call.Block()) {
+			if b, ok := pf.Cond.(*ssa.BinOp); ok && b.Op == token.EQL && pf.Truth {
 				// opprec == int(precedence[EQL])
 				if strings.Contains(b.Y.String(), "") {
 					tr := traceAddr(b.Y)
@@ -373,26 +373,40 @@ func ruleT5(c *Ctx) {
 	// CondExpr.False comes from a recursive parseTest call
 	key := "parseTest: conditional's else-operand"
 	found, okRec := false, false
-	eachInstr(pt, func(in ssa.Instruction) {
-		st, ok := in.(*ssa.Store)
-		if !ok {
-			return
+	var builders []*ssa.Function // the parser function(s) that build a CondExpr: parseTest itself or a helper of it
+	for _, f := range c.P.Funcs {
+		if relPkg(fnPkgPath(f)) == "syntax" {
+			builders = append(builders, f)
 		}
-		fa, ok := st.Addr.(*ssa.FieldAddr)
-		if !ok {
-			return
-		}
-		o, f := ownerField(fa)
-		if o != "syntax.CondExpr" || f != "False" {
-			return
-		}
-		found = true
-		for _, b := range traceAddr(st.Val).bases {
-			if call, ok := b.v.(*ssa.Call); ok && call.Call.StaticCallee() == pt {
-				okRec = true
+	}
+	for _, bf := range builders {
+		eachInstr(bf, func(in ssa.Instruction) {
+			st, ok := in.(*ssa.Store)
+			if !ok {
+				return
 			}
-		}
-	})
+			fa, ok := st.Addr.(*ssa.FieldAddr)
+			if !ok {
+				return
+			}
+			o, f := ownerField(fa)
+			if o != "syntax.CondExpr" || f != "False" {
+				return
+			}
+			rec := false
+			for _, b := range traceAddr(st.Val).bases {
+				if call, ok := b.v.(*ssa.Call); ok && call.Call.StaticCallee() == pt {
+					rec = true
+				}
+			}
+			if !found {
+				okRec = rec
+			} else {
+				okRec = okRec && rec
+			}
+			found = true
+		})
+	}
 	switch {
 	case !found:
 		c.viol(key, c.P.Pos(pt.Pos()), "parseTest no longer builds a CondExpr")
@@ -404,7 +418,7 @@ func ruleT5(c *Ctx) {
 	// parseBinopExpr: calls to parseTestPrec
 	var precP *ssa.Parameter
 	for _, p := range pb.Params {
-		if p.Name() == "prec" {
+		if bt, ok := p.Type().Underlying().(*types.Basic); ok && bt.Kind() == types.Int {
 			precP = p
 		}
 	}
